@@ -30,6 +30,7 @@ def run(tier):
                  lambda: tm.impl_check(c, "TimerImpl-4f-1w", tm.impl_consts(4, "D_n013", 1, 1), workers=2, timeout=2400),
                  lambda: tm.impl_live(c, "TimerImpl-live3", tm.impl_consts(3, "D_n02", 2, 1, maxt=36, keephist=False), workers=4,
                                       timeout=2400)]
+    jobs.append(lambda: tm.impl_wrong_variants(c))
     res = parallel(jobs, max_workers=3 if q else 6)
     impl_scripts = tm.load_scripts(res[0])
     sim_scripts = tm.load_scripts(res[2])
